@@ -63,3 +63,16 @@ Theorem C03_single_leaf_ExactG :
     ExactG dm n (init_rp_tree inf dm (make_heap inf n k) [leaf]).
 Proof. exact single_leaf_ExactG. Qed.
 Print Assumptions C03_single_leaf_ExactG.
+
+(* ---- the whole build (added): nn_descent in its default low-memory mode, on a dataset whose tree
+   leaf lists every point, sorts a heap graph that is exact up to distance ties - for every generator
+   state, iteration bound, stopping threshold and thread count.  (The final sort permutes each row.) ---- *)
+From PV Require Import C01Loop C03Loop.
+Theorem C03_single_leaf_build_exact :
+  forall (dm : nat -> nat -> Z) (inf : Z) (n k maxc : nat),
+    (0 < k)%nat -> (0 < maxc)%nat -> (0 < n)%nat -> (forall a b, dm a b = dm b a) -> (forall a b, dm a b < inf) ->
+    forall leaf b rng iters thr_c T,
+      NoDup leaf -> (forall x, In x leaf -> 0 <= x < Z.of_nat n) -> (forall i, (i < n)%nat -> In (Z.of_nat i) leaf) ->
+      ExactG dm n (nn_descent_heap dm inf n k maxc b rng iters thr_c None (Some [leaf]) true T).
+Proof. exact single_leaf_nn_descent_exact. Qed.
+Print Assumptions C03_single_leaf_build_exact.
